@@ -332,8 +332,8 @@ pub fn def() -> PropDef {
         assumptions: &["run thread stack 2 MiB (tokio's worker default) and the library built unoptimised with debug assertions: both are documented parameters of the stack-depth clause", "allocation failure itself is not injected; the size of requests is judged"],
         strata: vec![
             Stratum { name: "catalogue", quick: 27 * NATTACKS * 4, thorough: 27 * NATTACKS * 200, exhaustive: (true, true), run: catalogue, what: "kind x stage x attack catalogue" },
-            Stratum { name: "alphabet", quick: 12_000, thorough: NALPHA * 2 * 2, exhaustive: (false, true), run: alphabet, what: "all strings <= 5 over a reduced alphabet of flag/length/command bytes" },
-            Stratum { name: "mutated", quick: 30_000, thorough: 1_500_000, exhaustive: (false, false), run: mutated, what: "random mutations of valid streams" },
+            Stratum { name: "alphabet", quick: 30_000, thorough: NALPHA * 2 * 2, exhaustive: (false, true), run: alphabet, what: "all strings <= 5 over a reduced alphabet of flag/length/command bytes" },
+            Stratum { name: "mutated", quick: 100_000, thorough: 1_500_000, exhaustive: (false, false), run: mutated, what: "random mutations of valid streams" },
         ],
     }
 }
